@@ -450,6 +450,24 @@ def run(ctx):
                 if x[0] in ("param", "upvar") and len(x) > 2 and x[2]:
                     fields.add(x[2][-1] if not x[2][-1].startswith("@") and x[2][-1] not in (".0",) else next((e for e in reversed(x[2]) if e.startswith(".") and e != ".0"), ""))
         inst.sites.append("sub-query return_fields derives from base fields %s" % sorted(f for f in fields if f))
+        # the loop that adds the needed fields looks at each of them: it is left only by exhaustion (a `break` once one field is found
+        # already listed skips the other one)
+        fam_ = [F.fn_exact(k) for k in F.keys() if k.startswith(b.key.split("::{closure")[0] + "::{closure")] + [b]
+        for C in fam_:
+            pushes_ = [c for c in C.calls if not c.cleanup and c.nname.endswith("Vec::push")]
+            for h in for_headers(C):
+                try:
+                    some = variant_edge(C, h, "Some")
+                    none = variant_edge(C, h, "None")
+                except AnchorMissing:
+                    continue
+                body_ = set(C.reach(0, src_edges=some, cut_blocks=[h.bb]))
+                if not any(p_.bb in body_ for p_ in pushes_):
+                    continue
+                after = set(C.reach(0, src_edges=none, cut_blocks=[h.bb]))
+                inst.sites.append("needed-fields loop @ %s" % sp(C, h.bb))
+                if body_ & after:
+                    bad.append(("needed-fields-loop-left-early", "the loop of create_sub_query that adds the link / time field to a RETURN list can be left before it has looked at every needed field (break): RETURN [uid, ...] then hides the time column from the matcher", sp(C, h.bb)))
         for need in (".link_field", ".sequence_time_field"):
             if need not in fields:
                 bad.append(("sub-query-return-hides:%s" % need[1:], "create_sub_query builds the sub-query's RETURN list without the base query's %s: with RETURN [...] the column the sequence merger needs is projected away and no pair is found" % need[1:], sp(b, bb)))
